@@ -210,7 +210,7 @@ def run_conv(rec, case):
 
 
 def plan(tier, seed):
-    per = 2500 if tier == 'thorough' else 220
+    per = 8000 if tier == 'thorough' else 220
     shards = []
     for pair in ('TT', 'AA', 'TA', 'AT'):
         for s in range(4):
